@@ -327,6 +327,13 @@ c09("r9_any_number_encode", "R9", "every f64 bit pattern; recording Encoder",
 c09("r9_any_f32_decode", "R9", "tag 124 + every 4-byte payload", "Any::decode f32 vs primitive reader")
 c09("r9_any_f64_decode", "R9", "tag 123 + every 8-byte payload", "Any::decode f64 vs primitive reader")
 
+for n in ("map", "text", "xml_fragment", "xml_hook", "xml_text", "subdoc", "undefined"):
+    c09("r5_type_" + n, "R5", "Type content with TypeRef::%s, shape 3, ids symbolic; recording Encoder" % n,
+        "TypeRef::encode through Item::encode vs format", kani_args=FS)
+for n in ("single", "rel_rel", "nested_rel", "rel_nested", "root_root", "nested_nested"):
+    c09("r5_weak_" + n, "R5", "weak-link type ref, scope kinds concrete (%s), ids and associations symbolic; "
+        "recording Encoder" % n, "TypeRef::WeakLink encode (flags byte + scopes) vs format", kani_args=FS)
+
 ASSUMPTIONS["C09"] = [
     "R6/R7/R8 decide the *encoder* halves of delete-set ranges, sticky indexes and sync messages against their "
     "formats (encoder calls through a recording Encoder); their decoder halves are covered for totality only (C10)",
